@@ -707,14 +707,10 @@ class LargeLoopGroundEMSurvey(BaseEMSurvey, Curve):
             self.complement,
             self.default_receiver_type,
         ):
-            mask = np.r_[
-                [(val in intersect) for val in self.complement.tx_id_property.values]
-            ]
+            mask = np.isin(self.complement.tx_id_property.values, intersect)
             tx_ids = self.complement.tx_id_property.values[mask]
         else:
-            cell_mask = np.r_[
-                [(val in intersect) for val in self.complement.tx_id_property.values]
-            ]
+            cell_mask = np.isin(self.complement.tx_id_property.values, intersect)
             mask = np.zeros(self.complement.vertices.shape[0], dtype=bool)
             mask[self.complement.cells[cell_mask, :]] = True
             tx_ids = self.complement.tx_id_property.values[cell_mask]
